@@ -242,8 +242,10 @@ def h_two_submitters(c):
     t2.join()
 
 
-def h_solve(c, concurrent_shutdown=False, limit="5s"):
-    """halmos.solve.solve_low_level on a scripted solver: a time limit that expires must give `unknown`, never `unsat`"""
+def h_solve(c, concurrent_shutdown=False, limit="5s", refine=False):
+    """halmos.solve.solve_low_level on a scripted solver: a time limit that expires must give `unknown`, never `unsat`.
+    refine=True: solve_end_to_end on a query whose first answer is `sat` with an invalid model, so that a second (refined) solver job is
+    issued: that job belongs to the same executor (a shutdown kills it / refuses it)"""
     from z3 import unknown, unsat
 
     import halmos.solve as S
@@ -259,7 +261,10 @@ def h_solve(c, concurrent_shutdown=False, limit="5s"):
 
     sctx = S.SolvingContext(dump_dir=pathlib.Path(d))
     c.futs = []
-    pc = S.PathContext(args=args, path_id=0, solving_ctx=sctx, query=SMTQuery("(assert true)", {}))
+    text = "(assert true)"
+    if refine:
+        text = "(declare-fun f_evm_bvmul_256 ((_ BitVec 256) (_ BitVec 256)) (_ BitVec 256))\n(declare-const x (_ BitVec 256))\n(assert (= (f_evm_bvmul_256 x x) (_ bv4 256)))"
+    pc = S.PathContext(args=args, path_id=0, solving_ctx=sctx, query=SMTQuery(text, {}))
 
     def shutter():
         sctx.executor.shutdown(wait=False)
@@ -270,7 +275,7 @@ def h_solve(c, concurrent_shutdown=False, limit="5s"):
         t = c.thr.Thread(target=shutter)
         t.start()
     try:
-        out = S.solve_low_level(pc)
+        out = S.solve_end_to_end(pc) if refine else S.solve_low_level(pc)
         c.obs.append(("solve", "output", str(out.result)))
     except BaseException as e:  # noqa
         if isinstance(e, sched._Abort):
@@ -283,6 +288,7 @@ def h_solve(c, concurrent_shutdown=False, limit="5s"):
 
 
 UNSAT = ("unsat\n", "", 0)
+SAT_INVALID = ("sat\n(\n  (define-fun f_evm_bvmul_256 ((x!0 (_ BitVec 256)) (x!1 (_ BitVec 256))) (_ BitVec 256) #x00)\n)\n", "", 0)
 HARNESSES = {
     "race": ([UNSAT], False, h_race),
     "race-wait": ([UNSAT], False, lambda c: h_race(c, wait=True)),
@@ -298,6 +304,8 @@ HARNESSES = {
     "solve-shutdown": ([UNSAT], False, lambda c: h_solve(c, True)),
     "solve-300ms": ([UNSAT], False, lambda c: h_solve(c, False, "300ms")),
     "solve-nolimit": ([UNSAT], False, lambda c: h_solve(c, False, "0")),
+    "refine": ([SAT_INVALID, UNSAT], False, lambda c: h_solve(c, False, refine=True)),
+    "refine-shutdown": ([SAT_INVALID, UNSAT], False, lambda c: h_solve(c, True, refine=True)),
 }
 
 
